@@ -212,12 +212,25 @@ pub struct SymCache<T> {
 }
 impl<T: SymTok> SymCache<T> {
     pub fn tok_at(&mut self, i: usize) -> T {
-        let mut k = 0;
-        while k < MEMO {
-            if k < self.n && self.pos[k] == i {
-                return self.tok[k];
+        let mut hit: Option<T> = None;
+        #[cfg(kani)]
+        unroll!(k in [0, 1, 2, 3] {
+            if hit.is_none() && k < self.n && self.pos[k] == i {
+                hit = Some(self.tok[k]);
             }
-            k += 1;
+        });
+        #[cfg(not(kani))]
+        {
+            let mut k = 0;
+            while k < MEMO {
+                if hit.is_none() && k < self.n && self.pos[k] == i {
+                    hit = Some(self.tok[k]);
+                }
+                k += 1;
+            }
+        }
+        if let Some(t) = hit {
+            return t;
         }
         let t = T::fresh();
         // Capacity of the ghost memo: exceeding it makes the run undecided, never a pass.
@@ -546,6 +559,8 @@ pub struct VState {
     /// ghost scratch registers for closures
     pub reg: [usize; 8],
     pub flag: [bool; 4],
+    /// harness bound: when set, a succeeding stub leaves at most this many tokens unread
+    pub tail_bound: Option<usize>,
 }
 impl VState {
     pub fn new(len: usize) -> Self {
@@ -559,6 +574,7 @@ impl VState {
             clock: 0,
             reg: [0; 8],
             flag: [false; 4],
+            tail_bound: None,
         }
     }
 }
@@ -743,6 +759,11 @@ where
         ch::assume(adv >= 1);
     }
     let newpos = entry + adv;
+    if let Some(b) = inp.state.tail_bound {
+        if ok {
+            ch::assume(len - newpos <= b);
+        }
+    }
     inp.cursor = newpos;
     inp.state.believed = entry_believed.wrapping_add(adv);
     let emitted = ch::below(2);
@@ -912,7 +933,7 @@ where
 /// Expected list of emitted-error ids: consecutive segments `(first id, count)`; the pre-existing
 /// errors form the first segment, each kept child contributes one segment in call order.
 /// (Segments instead of an id array keep every array index concrete for the solver.)
-pub const SEGS: usize = 5;
+pub const SEGS: usize = 7;
 #[derive(Clone, Copy)]
 pub struct SecSpec {
     pub seg: [(u16, usize); SEGS],
@@ -937,7 +958,7 @@ impl SecSpec {
     }
     pub fn total(&self) -> usize {
         let mut t = 0usize;
-        unroll!(j in [0, 1, 2, 3, 4] {
+        unroll!(j in [0, 1, 2, 3, 4, 5, 6] {
             if j < self.k {
                 t = t.wrapping_add(self.seg[j].1);
             }
